@@ -312,6 +312,29 @@ func GetOutputNodes(root *html.Node) []*html.Node {
 	return outputNodes
 }
 
+// RemoveDuplicateAttributes keeps, on every element of the tree, only the first
+// attribute of each name. The HTML standard makes the tokenizer drop the later
+// ones, the parser used here keeps them, and helpers like dom.GetAttribute and
+// dom.SetAttribute only ever see the first.
+func RemoveDuplicateAttributes(root *html.Node) {
+	WalkNodes(root, func(node *html.Node) bool {
+		if node.Type == html.ElementNode && len(node.Attr) > 1 {
+			seen := make(map[[2]string]struct{}, len(node.Attr))
+			attrs := node.Attr[:0:0]
+			for _, attr := range node.Attr {
+				name := [2]string{attr.Namespace, attr.Key}
+				if _, exist := seen[name]; exist {
+					continue
+				}
+				seen[name] = struct{}{}
+				attrs = append(attrs, attr)
+			}
+			node.Attr = attrs
+		}
+		return true
+	}, nil)
+}
+
 // GetParentNodes returns list of all the parents of this node starting with the node itself.
 func GetParentNodes(node *html.Node) []*html.Node {
 	result := []*html.Node{}
